@@ -1,6 +1,7 @@
 """C54 FTP server never touches paths outside its root — real server, real reactor, audited.
 
 What is monitored: a real ``FTPFactory`` (``FTPShell(root)`` for a password user,
+``FTPShell(homes/bob)`` — a nearly empty home under an otherwise empty parent — for a second user,
 ``FTPAnonymousShell(root/pub)`` for anonymous) listens on 127.0.0.1:0 in a subprocess
 (``c54_server.py``; select / poll / epoll / asyncio reactors) whose ``sys.addaudithook`` recorder
 logs every filesystem audit event (open, os.listdir, os.scandir, os.mkdir, os.rmdir, os.remove,
@@ -46,7 +47,8 @@ LEVEL = "exploration"
 ENGINE = "E4-audit+E6-reactorproc (self-contained in c54.py / c54_server.py)"
 TECHNIQUE = "runtime monitoring: audited filesystem paths of a live FTP server must stay inside the shell root"
 RULE = ("one case = one FTP session of ~30 commands generated from (seed, index): login as the "
-        "read-write user or anonymous (some sessions first try commands unauthenticated or with a "
+        "read-write user, anonymous, or (15 %) a second user whose home is nearly empty below an otherwise empty "
+        "parent and whose sessions are MKD/RMD/DELE sequences that empty directories completely (some sessions first try commands unauthenticated or with a "
         "wrong password), then path commands whose arguments come from a hostile generator aware "
         "of a model of the working directory: exact relative/absolute-virtual escapes to sibling "
         "directories sharing the root's name prefix (root-secret, rootX, pub-private), to decoys "
@@ -57,7 +59,8 @@ RULE = ("one case = one FTP session of ~30 commands generated from (seed, index)
         "names, 40..200-deep paths, and benign names so that state (cwd, created files) evolves.  "
         "Reactor = index mod 4 (one server subprocess per reactor and shard).  Distinct = the exact command list; non-trivial = at "
         "least one escape attempt (argument lexically resolving outside the root) and at least "
-        "one audited filesystem event inside the root in the same session.")
+        "one audited filesystem event inside the root in the same session (sparse-home sessions: at least one "
+        "rmdir inside the root).")
 ASSUMPTIONS = [
     "trusted base: CPython audit events (PEP 578) report every open/listdir/scandir/mkdir/rmdir/remove/rename/chmod/truncate made from Python code; C-level access (pwd/grp lookups) and os.stat are invisible",
     "paths are resolved lexically (os.path.abspath); the scratch tree contains no symbolic links ('symbolic links aside' in the statement)",
@@ -73,13 +76,16 @@ SHARDS = {"quick": 4, "thorough": 16}
 WATCHDOG_S = {"quick": 600, "thorough": 3000}
 FLOORS = {"sessions": 60, "opens_inside_root": 100, "listings_inside_root": 250, "mutations_inside_root": 250,
           "ev_os.mkdir": 100, "ev_os.remove": 30, "ev_os.rename": 50, "ev_os.rmdir": 30,
-          "escape_attempt_commands": 700, "escape_attempts_refused_5xx": 500, "transfers_completed": 100}
+          "sessions_sparse": 15, "rmdir_in_sparse_home": 60, "escape_attempt_commands": 700, "escape_attempts_refused_5xx": 500, "transfers_completed": 100}
 READY = True
 
 REACTORS = ["select", "poll", "epoll", "asyncio"]
 PAD = 12  # directory levels between the scratch top and `base`
 BASE_T = "@TOP@" + "/p" * PAD + "/b"  # template of `base`; the only placeholder is @TOP@ (+ @TOPREL@)
-ROOT_T = {"rw": BASE_T + "/root", "anon": BASE_T + "/root/pub"}
+ROOT_T = {"rw": BASE_T + "/root", "anon": BASE_T + "/root/pub",
+          # nearly empty home below an otherwise empty parent: base/homes holds only bob, bob holds only `only/`
+          "sparse": BASE_T + "/homes/bob"}
+USER2, PASSWORD2 = "bob", "builder"
 MAX_UPS_DESTRUCTIVE = PAD + 1
 USER, PASSWORD = "alice", "wonderland"
 ROOT_DIRS = ["pub", "pub/docs", "pub/docs/deep", "pub/upload", "pub-private", "home", "home/sub", "home/sub/inner", "empty"]
@@ -150,6 +156,10 @@ class Layout:
         self.own(os.path.join(self.top, "p"))
 
     def build_root(self):
+        homes = os.path.join(self.base, "homes")
+        shutil.rmtree(homes, ignore_errors=True)
+        os.makedirs(os.path.join(self.real(ROOT_T["sparse"]), "only"))
+        self.own(homes)
         shutil.rmtree(self.root, ignore_errors=True)
         os.mkdir(self.root)
         for d in ROOT_DIRS:
@@ -207,10 +217,14 @@ def outside_targets(kind, rng):
         r = ROOT_T["rw"]
         t += [r, r + "/readme.txt", r + "/pub-private/secret.txt", r + "/pub-private", r + "/home/notes.txt",
               r + "/home", r + "/pub-private/" + n, r + "/" + n] * 2
+    if kind == "sparse":
+        t += [BASE_T + "/homes", BASE_T + "/homes/" + n, BASE_T + "/homes/bobby", BASE_T + "/root/readme.txt"] * 2
     return t
 
 
 def inside_names(kind):
+    if kind == "sparse":
+        return ["only"]
     names = ROOT_DIRS + ROOT_FILES
     if kind == "anon":
         names = [x[4:] for x in names if x.startswith("pub/")]
@@ -363,8 +377,57 @@ def count_ups(p):
     return sum(1 for s in re.split(r"[/\\]", p) if dots(s) >= 2)
 
 
+def gen_sparse(rng):
+    """Commands for the nearly empty home (root = base/homes/bob containing only `only/`, and
+    base/homes containing only bob): ordinary MKD / RMD / DELE sequences that empty directories
+    completely, so that any clean-up of 'now empty' parents that does not stop at the root shows."""
+    def k():
+        return rng.randrange(100)
+    blocks = [
+        lambda: ["RMD only"],
+        lambda: ["RMD " + rng.choice(["/only", "./only/", "only/", "only/../only", "/./only", "//only"])],
+        lambda: ["MKD a/b/c", "RMD a/b/c", "RMD a/b", "RMD a"],
+        lambda: ["MKD a/b/c", "RMD a/b/c"],
+        lambda: (lambda d: ["MKD /%s/e/f/g" % d, "RMD %s/e/f/g" % d, "RMD /%s/e/f" % d, "PWD"])("d%d" % k()),
+        lambda: ["MKD x", "CWD x", "MKD y", "RMD y", "CWD /", "RMD x"],
+        lambda: ["MKD x", "CWD x", "MKD y", "CWD y", "CDUP", "RMD y", "CDUP", "RMD x"],
+        lambda: ["PASV", "STOR only/f.txt", "DELE only/f.txt", "RMD only"],
+        lambda: ["PASV", "STOR f%d.txt" % k(), "PASV", "NLST", "DELE " + "f*.txt", "PWD"],
+        lambda: ["CWD only", "PASV", "STOR last.txt", "DELE last.txt", "CWD /", "RMD only"],
+        lambda: ["RNFR only", "RNTO other", "RMD other"],
+        lambda: ["MKD only", "MKD only/sub", "RMD only/sub", "RMD only"],
+        lambda: ["PASV", "LIST", "PASV", "NLST /", "SIZE only", "MDTM only"],
+        lambda: ["CWD only", "RMD /only", "PWD", "PASV", "LIST", "CWD /"],
+        lambda: ["RMD " + rng.choice([".", "/", "", "only/..", "./"])],
+    ]
+    cmds = []
+    while len(cmds) < 30:
+        r = rng.random()
+        if r < 0.62:
+            cmds += rng.choice(blocks)()
+        elif r < 0.70:
+            d = "n%d" % k()
+            depth = rng.randrange(1, 5)
+            path = "/".join([d] + ["s"] * depth)
+            cmds.append("MKD " + path)
+            for j in range(depth + 1, 0, -1) if rng.random() < 0.7 else [depth + 1]:
+                cmds.append("RMD " + "/".join(path.split("/")[:j]))
+        else:
+            destructive = rng.random() < 0.4
+            verb = rng.choice(RW_VERBS if destructive else [v for v in RO_VERBS if v != "CWD"])
+            arg = hostile_path(rng, "sparse", [], True if destructive else False)
+            cmds += (["PASV"] if verb in TRANSFER else []) + [verb + " " + arg]
+            if verb == "RNFR":
+                cmds.append("RNTO " + hostile_path(rng, "sparse", [], True))
+    return cmds
+
+
 def gen_session(rng, index, nshards):
-    kind = "anon" if rng.random() < 0.35 else "rw"
+    r = rng.random()
+    kind = "sparse" if r < 0.15 else "anon" if r < 0.45 else "rw"
+    if kind == "sparse":
+        return {"case": index, "user": kind, "reactor": REACTORS[index % len(REACTORS)],
+                "commands": ["USER " + USER2, "PASS " + PASSWORD2] + gen_sparse(rng) + ["QUIT"]}
     cmds = []
     style = rng.random()
     if style < 0.08:  # unauthenticated attempts first
@@ -644,7 +707,8 @@ class Server:
         self.token = "t%d" % os.getpid()
         cfg = {"reactor": reactor, "top": layout.top, "selftest_unconfined": bool(os.environ.get("C54_SELFTEST_UNCONFINED")),
                "rw_root": layout.root, "anon_root": layout.real(ROOT_T["anon"]), "out": self.out,
-               "cwd": os.path.join(layout.top, "cwd"), "user": USER, "password": PASSWORD, "token": self.token, "lifetime": 1500}
+               "cwd": os.path.join(layout.top, "cwd"), "user": USER, "password": PASSWORD,
+               "user2": USER2, "password2": PASSWORD2, "sparse_root": layout.real(ROOT_T["sparse"]), "token": self.token, "lifetime": 1500}
         script = os.path.join(os.path.dirname(os.path.abspath(__file__)), "c54_server.py")
         self.errf = open(self.err, "wb")
         self.proc = subprocess.Popen([sys.executable, "-B", "-X", "faulthandler", "-W", "ignore", script, json.dumps(cfg)],
@@ -795,7 +859,7 @@ def judge(ctx, layout, sessions, records, log):
             if ent[1].startswith("XSID "):
                 cur = by_case.get(int(ent[1][5:]))
                 cur_line, cur_idx = None, 0
-                per_case[cur["case"]] = {"inside": 0, "events": []}
+                per_case[cur["case"]] = {"inside": 0, "rmdir": 0, "events": []}
             else:
                 cur_line = ent[1]
                 cur_idx += 1  # records[case]["replies"][cur_idx] is this command (index 0 = greeting)
@@ -850,6 +914,10 @@ def judge(ctx, layout, sessions, records, log):
                     ctx.count("listings_inside_root")
                 elif event in MUTATING_EVENTS:
                     ctx.count("mutations_inside_root")
+                    if event == "os.rmdir":
+                        pc["rmdir"] += 1
+                        if cur["user"] == "sparse":
+                            ctx.count("rmdir_in_sparse_home" + ("_of_the_root_itself" if p == R else ""))
                 if len(pc["events"]) < 12:
                     pc["events"].append([layout.templ(cur_line or "")[:80], event, layout.templ(p)[-60:]])
             elif (blocked or p == layout.top or p.startswith(layout.top + os.sep) or p in system or p.startswith("/etc/")
@@ -886,7 +954,7 @@ def judge(ctx, layout, sessions, records, log):
                           {"case": s["case"], "reactor": s["reactor"], "user": s["user"], "commands": s["commands"],
                            "root": ROOT_T[s["user"]], "changed(before,after)": rec["outside_diff"],
                            "replies": rec["replies"][-10:]})
-        if rec["attempts"] and pc["inside"] > 0:
+        if (rec["attempts"] and pc["inside"] > 0) or (s["user"] == "sparse" and pc["rmdir"] > 0):
             ctx.distinct(tuple(s["commands"]))
         ctx.sample({"case": s["case"], "reactor": s["reactor"], "user": s["user"], "commands": s["commands"][:14],
                     "replies": rec["replies"][:14], "escape_attempts": len(rec["attempts"]),
